@@ -159,7 +159,7 @@ func genUntrusted(tier string, seed uint64) {
 	}
 	var typed []reflect.Type
 	for _, v := range []interface{}{Inner{}, WithPtr{}, Emb{}, EmbPtr{}, Rec{}, Tagged{}, OmitAll{}, Nums{}, HasShape{}, MapKeyed{}, TwoMaps{}, StrMap{}, Blob{}, PaySum{},
-		Narrow{}, []Shape{}, map[string]Shape{}, []interface{}{}, map[string]interface{}{}, map[KeyStruct]string{}, []TrNum{}, (***Inner)(nil), [2]TrMap{}, Wide{}} {
+		Narrow{}, []Shape{}, map[string]Shape{}, []interface{}{}, map[string]interface{}{}, map[KeyStruct]string{}, []TrNum{}, (***Inner)(nil), [2]TrMap{}, Wide{}, [2]MyByte{}, Arr4{}, [3]byte{}, []MyByte{}, [2][]byte{}, map[TrKey]int{}, TrIn{}} {
 		typed = append(typed, reflect.TypeOf(v))
 	}
 	for _, aid := range []int{1, 2, 3, 4} {
